@@ -189,7 +189,8 @@ func genC05(g GenCtx) interface{} {
 	if !marathon && rng.Intn(6) == 0 {
 		sc.Acts = append(sc.Acts, TAct{Op: "crowd", Ms: 2 + rng.Intn(15)})
 	}
-	if !marathon && rng.Intn(4) == 0 {
+	if !marathon && !sc.Reuse && rng.Intn(4) == 0 {
+		// (not with the in-place server: it must not change an object somebody may still hold)
 		// the controller is closed with a burst still on its way through the tree
 		// (which has at least one subscriber two hops further down than the witness)
 		c1 := b.add(-1, "clone", TAct{})
